@@ -152,35 +152,66 @@ theorem C19_forward_exact (dev : Dev) (msg : Req) (m : TReqs) (hsub : isSub msg 
   simp [process_eq, processHand, hsub, hs, isPoll_of_isSub msg hsub]
 
 /-- What one target's forwarding consists of: nothing at all when the target has no connection
-    (the error is discarded — nobody is told); otherwise the subscription followed by the target's
-    SubscribeResponses, relayed in order and unchanged (`C19_relay_all`). -/
+    (the error is discarded — nobody is told); otherwise the subscription followed by what the
+    target sends back in its round 0, relayed in order and unchanged (`C19_relay_rounds`). -/
 theorem C19_relay_identity (dev : Dev) (t : Str) (r : Req) (hp : (reqPrefix r).isSome = true) :
     forward dev (t, r) =
       match devLookup dev t with
       | none => []
-      | some msgs => .subscribed t r :: relays t msgs := by
+      | some rounds => .subscribed t r :: relays t (rounds.getD 0 []) := by
   unfold forward
   cases devLookup dev t with
   | none => rfl
-  | some msgs =>
+  | some rounds =>
     have : (reqPrefix r).isNone = false := by
       cases h : reqPrefix r <;> simp_all
-    simp [this]
+    simp [this, roundRelays]
 
-/-- Updates are relayed as received: when a target sends only SubscribeResponses, the subscriber
-    gets every one of them, in order, with its content untouched. -/
-theorem C19_relay_all (t : Str) (ids : List Str) :
-    relays t (ids.map DevMsg.resp) = ids.map (Out.relayed t) := by
-  induction ids with
-  | nil => rfl
-  | cons i rest ih => simp [relays, ih]
+/-- Updates are relayed as received, round after round: as long as a target has sent nothing but
+    SubscribeResponses (updates and `sync_response`s alike) up to and including round `k`, the
+    subscriber is sent every message of round `k`, in order, untouched — in particular the
+    `sync_response` that ends the second, third, … poll round just like the first. -/
+theorem C19_relay_rounds (t : Str) (rounds : List (List DevMsg)) (k : Nat)
+    (h : (rounds.take (k + 1)).any (fun r => r.any isOther) = false) :
+    roundRelays t rounds k = (rounds.getD k []).map (fun m => Out.relayed t (msgId m)) := by
+  have hall : ∀ r ∈ rounds.take (k + 1), r.any isOther = false := by
+    intro r hr
+    rw [Bool.eq_false_iff]
+    intro hc
+    rw [Bool.eq_false_iff] at h
+    exact h (List.any_eq_true.mpr ⟨r, hr, hc⟩)
+  have h1 : (rounds.take k).any (fun r => r.any isOther) = false := by
+    rw [Bool.eq_false_iff]
+    intro hc
+    obtain ⟨r, hr, hro⟩ := List.any_eq_true.mp hc
+    have hsub : r ∈ rounds.take (k + 1) := (List.take_subset_take_left rounds (Nat.le_succ k)) hr
+    rw [hall r hsub] at hro
+    exact Bool.false_ne_true hro
+  have h2 : (rounds.getD k []).any isOther = false := by
+    by_cases hk : k < rounds.length
+    · apply hall
+      have hget : rounds.getD k [] = rounds[k] := by simp [List.getD, hk]
+      rw [hget]
+      exact List.mem_take_iff_getElem.mpr ⟨k, by simp only [Nat.lt_min]; omega, rfl⟩
+    · have : rounds.getD k [] = [] := by simp [List.getD, Nat.not_lt.mp hk]
+      rw [this]; rfl
+  simp only [roundRelays, h1, Bool.false_eq_true, if_false]
+  exact relays_all t _ h2
+
+/-- Every `sync_response` counts: a target that answers the subscription and each of two polls with
+    an update and a `sync_response` has all three `sync_response`s relayed. -/
+theorem C19_every_sync_relayed (t : Str) (u0 u1 u2 : Str) (k : Nat) (hk : k < 3) :
+    roundRelays t [[.resp u0, .sync], [.resp u1, .sync], [.resp u2, .sync]] k =
+      [Out.relayed t ([u0, u1, u2].getD k []), Out.relayed t syncId] := by
+  have : k = 0 ∨ k = 1 ∨ k = 2 := by omega
+  rcases this with rfl | rfl | rfl <;> simp [roundRelays, relays, isOther]
 
 /-- A poll on a subscribed stream goes to exactly the connected targets subscribed on that stream,
-    once each, and changes nothing. -/
+    once each; nothing of the subscription changes (only the round the targets are in advances). -/
 theorem C19_poll_all (dev : Dev) (st : SState) (msg : Req) (hp : isPoll msg = true)
     (hsome : st.req.isSome = true) :
-    process dev st msg = (st, st.treqs.flatMap (pollOne dev), none) ∧
-    ∀ t, Out.polled t ∈ st.treqs.flatMap (pollOne dev) ↔
+    process dev st msg = ({ st with polls := st.polls + 1 }, st.treqs.flatMap (pollOne dev st.polls), none) ∧
+    ∀ t, Out.polled t ∈ st.treqs.flatMap (pollOne dev st.polls) ↔
       (t ∈ st.treqs.map (·.1) ∧ (devLookup dev t).isSome = true) := by
   have hsub : isSub msg = false := by
     cases msg with | mk b t => cases b <;> simp_all [isSub, isPoll]
@@ -194,20 +225,24 @@ theorem C19_poll_all (dev : Dev) (st : SState) (msg : Req) (hp : isPoll msg = tr
     unfold pollOne at hout
     cases hd : devLookup dev kr.1 with
     | none => simp [hd] at hout
-    | some msgs =>
-      simp only [hd, List.mem_singleton, Out.polled.injEq] at hout
-      subst hout
-      exact ⟨⟨kr, hkr, rfl⟩, by simp [hd]⟩
+    | some rounds =>
+      simp only [hd, List.mem_cons] at hout
+      rcases hout with hout | hout
+      · have : t = kr.1 := by simpa using hout
+        subst this
+        exact ⟨⟨kr, hkr, rfl⟩, by simp [hd]⟩
+      · obtain ⟨id, hid⟩ := roundRelays_mem _ _ _ _ hout
+        simp at hid
   · rintro ⟨⟨kr, hkr, rfl⟩, hd⟩
     refine ⟨kr, hkr, ?_⟩
     unfold pollOne
     cases hd' : devLookup dev kr.1 with
     | none => simp [hd'] at hd
-    | some msgs => simp
+    | some rounds => simp
 
 /-- Whole streams: everything a stream ever causes is the forwarding of its first message — if
     that is an acceptable subscription — followed by one poll round per poll message that follows
-    it directly; a stream that does not start with an acceptable subscription causes nothing. -/
+    it directly (the i-th fetching round i+1 of every connected target); a stream that does not start with an acceptable subscription causes nothing. -/
 theorem C19_stream (dev : Dev) (evs : List Event) :
     (run dev {} evs).1 =
       match evs with
@@ -215,7 +250,7 @@ theorem C19_stream (dev : Dev) (evs : List Event) :
         if isSub m0 then
           match split m0 with
           | .ok (.ok m) => m.flatMap (forward dev) ++
-              (List.replicate (leadingPolls rest) (m.flatMap (pollOne dev))).flatten
+              (List.range (leadingPolls rest)).flatMap (fun i => m.flatMap (pollOne dev i))
           | _ => []
         else []
       | _ => [] := by
@@ -264,7 +299,7 @@ theorem C19_forward_all_partial (dev : Dev) (top : Fields) (l : SubList)
     rw [C19_relay_identity dev t r hpr]
     cases hd : devLookup dev t with
     | none => simp [hd] at hc
-    | some msgs => simp
+    | some rounds => simp
   have hproc : process dev {} { body := .subscribe l, top := top } =
       match split { body := .subscribe l, top := top } with
       | .ok (.ok m) => ({ req := some { body := .subscribe l, top := top }, treqs := m }, m.flatMap (forward dev), none)
@@ -322,7 +357,9 @@ def sampleList : SubList :=
              { path := some [("Elem", "b".toList), ("Target", "t1".toList)], rest := "2:5".toList }],
     opts := [("Mode", "1".toList), ("Encoding", "2".toList), ("UpdatesOnly", "1".toList)] }
 def sampleTop : Fields := [("Extension", "7".toList)]
-def sampleDev : Dev := [("t1".toList, [.resp "u1".toList, .other "x".toList, .resp "u2".toList]), ("t2".toList, [])]
+def sampleDev : Dev :=
+  [("t1".toList, [[.resp "u1".toList, .sync], [.resp "u2".toList, .sync], [.sync, .other "x".toList, .resp "u3".toList]]),
+   ("t2".toList, [])]
 
 example : getTarget sampleList.pfx = [] ∧ optsOK sampleList.opts = true ∧ topOK sampleTop = true ∧
     sampleList.subs.all (fun s => subTarget s != []) = true := by decide
@@ -331,7 +368,8 @@ example : (match split { body := .subscribe sampleList, top := sampleTop } with
 example : getTarget (some witnessT1) ≠ [] := by decide
 example : isSub { body := .subscribe sampleList, top := sampleTop } = true ∧ isPoll { body := .poll, top := [] } = true := by decide
 example : (run sampleDev {} [.msg { body := .subscribe sampleList, top := sampleTop }, .msg { body := .poll, top := [] },
-    .msg { body := .poll, top := [] }, .eof]).1.length = 2 + 1 + 2 + 2 := by decide
+    .msg { body := .poll, top := [] }, .eof]).1.length = 3 + 1 + (3 + 1) + (2 + 1) := by decide
+example : (([[.resp "u1".toList, .sync], [.sync]] : List (List DevMsg)).take 2).any (fun r => r.any isOther) = false := by decide
 example : namedConnected sampleDev sampleList = true := by decide
 
 end OnosVerif.Props.C19
